@@ -11,6 +11,7 @@ import (
 	"errors"
 	"fmt"
 	"io"
+	"math"
 
 	"github.com/rpcpool/yellowstone-faithful/indexmeta"
 )
@@ -29,6 +30,10 @@ var ErrInvalidMagic = errors.New("invalid magic")
 //
 // The provided stream must start with the Magic byte sequence.
 // Tip: Use io.NewSectionReader to create aligned substreams when dealing with a file that contains multiple indexes.
+// maxHeaderSize bounds the header length read from the file before it is used as an allocation size.
+// A header holds 13 fixed bytes plus at most 255 metadata pairs of at most 2*(1+255) bytes.
+const maxHeaderSize = 1 << 20
+
 func Open(stream io.ReaderAt) (*DB, error) {
 	// Read the static 32-byte header.
 	// Ignore errors if the read fails after filling the buffer (e.g. EOF).
@@ -43,6 +48,9 @@ func Open(stream io.ReaderAt) (*DB, error) {
 		return nil, ErrInvalidMagic
 	}
 	size := binary.LittleEndian.Uint32(magicAndSize[8:])
+	if size > maxHeaderSize {
+		return nil, fmt.Errorf("invalid header length: %d", size)
+	}
 	fileHeaderBuf := make([]byte, 8+4+size)
 	n, readErr = stream.ReadAt(fileHeaderBuf, 0)
 	if n < len(fileHeaderBuf) {
@@ -104,6 +112,10 @@ func (db *DB) GetBucket(i uint) (*Bucket, error) {
 	if i >= uint(db.Header.NumBuckets) {
 		return nil, fmt.Errorf("out of bounds bucket index: %d >= %d", i, db.Header.NumBuckets)
 	}
+	if db.Header.ValueSize > math.MaxUint8-HashSize {
+		// the entry stride (hash + value) is held in one byte
+		return nil, fmt.Errorf("unsupported value size: %d", db.Header.ValueSize)
+	}
 
 	// Fill bucket handle.
 	bucket := &Bucket{
@@ -117,6 +129,10 @@ func (db *DB) GetBucket(i uint) (*Bucket, error) {
 	readErr := bucket.BucketHeader.readFrom(db.Stream, i)
 	if readErr != nil {
 		return nil, readErr
+	}
+	if int(bucket.HashLen)+int(bucket.OffsetWidth) > int(bucket.Stride) {
+		// the hash length comes from the file and is used to slice the entries
+		return nil, fmt.Errorf("invalid bucket header: hash length %d does not fit the entry stride %d", bucket.HashLen, bucket.Stride)
 	}
 	bucket.Entries = io.NewSectionReader(db.Stream, int64(bucket.FileOffset), int64(bucket.NumEntries)*int64(bucket.Stride))
 	if db.prefetch {
